@@ -143,6 +143,14 @@ def finish(ctx: Ctx, level: str = "other") -> int:
             print(f"VIOLATION property={ctx.prop} replay={rp}")
 
     try:
+        from . import mirfront
+        mods = sorted(k.split("::", 1)[1] for k in core._MODS if k.startswith(str(core.REPO) + "::"))
+        if str(core.REPO) in getattr(mirfront, "_LOADED", {}):
+            mods.append("rust/src/** (MIR of the crate)")
+        ctx.analysed["modules_consulted"] = mods
+    except Exception:       # noqa: BLE001 - evidence only
+        pass
+    try:
         from . import sem
         ref = sem.reference_info()
         ch = sem.changed_files() if sem.reference_available() else []
